@@ -75,10 +75,50 @@ static std::string show_state(const B &x, const std::string &ret) {
     return s + "/" + ret;
 }
 
+typedef __int128 i128;
+// operand / target types: every width and signedness, plus unsigned long / long (64 bits, distinct from
+// the 64-bit word type unsigned long long, so they take the template overloads even at 64-bit words)
+template <typename N> struct UOf { typedef N type; };
+template <> struct UOf<SizeT8I> { typedef SizeT8 type; };
+template <> struct UOf<SizeT16I> { typedef SizeT16 type; };
+template <> struct UOf<SizeT32I> { typedef SizeT32 type; };
+template <> struct UOf<SizeT64I> { typedef SizeT64 type; };
+template <> struct UOf<long> { typedef unsigned long type; };
+template <> struct UOf<i128> { typedef u128 type; };
+
+template <typename F>
+static bool withType(const std::string &ty, F &&fn) {
+    if (ty == "8") fn(SizeT8{});
+    else if (ty == "16") fn(SizeT16{});
+    else if (ty == "32") fn(SizeT32{});
+    else if (ty == "64") fn(SizeT64{});
+    else if (ty == "128") fn(u128{});
+    else if (ty == "L") fn((unsigned long)0);
+    else if (ty == "s8") fn(SizeT8I{});
+    else if (ty == "s16") fn(SizeT16I{});
+    else if (ty == "s32") fn(SizeT32I{});
+    else if (ty == "s64") fn(SizeT64I{});
+    else if (ty == "s128") fn(i128{});
+    else if (ty == "sL") fn(long{});
+    else return false;
+    return true;
+}
+static int typeBits(const std::string &ty, bool &is_signed) {
+    int bits = 0;
+    is_signed = false;
+    withType(ty, [&](auto tag) {
+        typedef decltype(tag) N;
+        bits      = int(sizeof(N) * 8U);
+        is_signed = (N(-1) < N(0));
+    });
+    return bits;
+}
+
 template <typename B, typename N>
 static void doBop(B &x, const std::string &o, u128 v) {
     const N a = N(v);
     if (o == "as") x = a;
+    else if (o == "cn") { x.~B(); new (&x) B(a); } // converting constructor
     else if (o == "ad") x += a;
     else if (o == "sb") x -= a;
     else if (o == "or") x |= a;
@@ -131,21 +171,40 @@ static std::string runSeq(const std::vector<std::string> &t) {
         bool        pre = false;
         bool        shret_known = false;
         std::string shret;
-        if (f.size() == 3) {
-            u128      v;
-            const int K = atoi(f[1].c_str());
-            if (!parse_u128(f[2], v) || !(K == 8 || K == 16 || K == 32 || K == 64 || K == 128)) return "bad-op";
-            if (K < 128 && (v >> K) != 0) return "bad-op";
-            if ((o == "as" || o == "or" || o == "an") && narrow_obj && K > int(W) && shr128(v, n * W) != 0) pre = true;
-            if (!pre) {
-                switch (K) {
-                    case 8: doBop<B, SizeT8>(x, o, v); break;
-                    case 16: doBop<B, SizeT16>(x, o, v); break;
-                    case 32: doBop<B, SizeT32>(x, o, v); break;
-                    case 64: doBop<B, SizeT64>(x, o, v); break;
-                    default: doBop<B, u128>(x, o, v); break;
+        if (f.size() == 3 && (o == "ai" || o == "si" || o == "st")) {
+            // Add(number, index) / Subtract(number, index) / Storage()[index] = number
+            u128 v, iv;
+            if (!parse_u128(f[1], iv) || !parse_u128(f[2], v) || (iv >> 32) != 0 || shr128(v, W) != 0) return "bad-op";
+            const SizeT32 idx = SizeT32(iv);
+            if (o == "st") {
+                if (idx >= n) return "bad-op";
+                x.Storage()[idx] = T(v);
+                shv = false;
+            } else {
+                if (o == "ai") x.Add(T(v), idx);
+                else x.Subtract(T(v), idx);
+                if (shv && v != 0) {
+                    if (u128(idx) * W >= 128U) shv = false;
+                    else {
+                        const u128 t = v << (idx * W);
+                        if ((t >> (idx * W)) != v) shv = false;
+                        else if (o == "ai") { u128 r; shv = !__builtin_add_overflow(sh, t, &r) && fits(r); sh = r; }
+                        else { shv = (t <= sh); sh -= t; }
+                    }
                 }
-                if (shv) {
+            }
+        } else if (f.size() == 3) {
+            u128 v;
+            bool sg;
+            const int K = typeBits(f[1], sg);
+            if (!parse_u128(f[2], v) || K == 0) return "bad-op";
+            if (shr128(v, unsigned(sg ? K - 1 : K)) != 0) return "bad-op"; // signed operands: non-negative values only
+            if ((o == "as" || o == "cn" || o == "or" || o == "an") && narrow_obj && K > int(W) && shr128(v, n * W) != 0) pre = true;
+            if (!(o == "as" || o == "cn" || o == "ad" || o == "sb" || o == "or" || o == "an")) return "bad-op";
+            if (!pre) {
+                withType(f[1], [&](auto tag) { doBop<B, decltype(tag)>(x, o, v); });
+                if (o == "cn") { sh = v; shv = fits(v); }
+                else if (shv) {
                     if (o == "as") { sh = v; shv = fits(v); }
                     else
                     if (o == "ad") { u128 r; shv = !__builtin_add_overflow(sh, v, &r) && fits(r); sh = r; }
@@ -154,9 +213,48 @@ static std::string runSeq(const std::vector<std::string> &t) {
                     else { shv = fits(v); sh &= v; }
                 }
             }
+        } else if (f.size() == 2 && o == "nw") {
+            // explicit conversion to every unsigned / signed type (signed results shown as their bit pattern)
+            bool      sg;
+            const int K = typeBits(f[1], sg);
+            if (K == 0) return "bad-op";
+            u128 r = 0;
+            withType(f[1], [&](auto tag) {
+                typedef decltype(tag) N;
+                r = u128(typename UOf<N>::type(N(x)));
+            });
+            ret = show_u128(r);
+            if (shv) { shret = show_u128(K >= 128 ? sh : (sh & ((u128(1) << K) - 1U))); shret_known = true; }
         } else if (f.size() == 2) {
             u128 v;
             if (!parse_u128(f[1], v)) return "bad-op";
+            if (o == "ix") {
+                if (v >= n) return "bad-op";
+                x.SetIndex(SizeT32(v));
+                shv = false;
+            } else if (o == "dq") {
+                if ((v >> W) != 0) return "bad-op";
+                if (v == 0) pre = true;
+                else { x /= T(v); if (shv) sh /= v; }
+            } else if (o == "mun") {
+                if ((v >> W) != 0) return "bad-op";
+                x.Multiply(T(v));
+                if (shv) { u128 r; shv = !__builtin_mul_overflow(sh, v, &r) && fits(r); sh = r; }
+            } else if (o == "sln" || o == "srn") {
+                if ((v >> 32) != 0) return "bad-op";
+                const SizeT32 k2 = SizeT32(v);
+                if (o == "sln") {
+                    x.ShiftLeft(k2);
+                    if (shv) {
+                        if (sh == 0) { }
+                        else if (k2 >= 128U || ((sh << k2) >> k2) != sh || !fits(sh << k2)) shv = false;
+                        else sh <<= k2;
+                    }
+                } else {
+                    x.ShiftRight(k2);
+                    if (shv) sh = (k2 >= 128U) ? u128(0) : (sh >> k2);
+                }
+            } else
             if (o == "rlt" || o == "rle" || o == "rgt" || o == "rge" || o == "req" || o == "rne") {
                 // the reversed friends: number OP object
                 if ((v >> W) != 0) return "bad-op";
@@ -223,13 +321,17 @@ static std::string runSeq(const std::vector<std::string> &t) {
                 ret = show_u128(r);
                 if (shv) { shret = show_u128(sh & m); shret_known = true; }
             } else return "bad-op";
-        } else if (o == "sv" || o == "ld" || o == "mv") {
+        } else if (o == "sv" || o == "ld" || o == "mv" || o == "sa" || o == "sm" || o == "cc" || o == "mc") {
             // the shadow follows a copy only when both objects were being followed (the target's
             // invariant is a precondition of copy)
             const bool both = shv && shtv;
             if (o == "sv") { y = x; sht = sh; shtv = both; }
             else if (o == "ld") { x = y; sh = sht; shv = both; }
-            else { x = static_cast<B &&>(y); sh = sht; shv = both; sht = 0; shtv = both; }
+            else if (o == "mv") { x = static_cast<B &&>(y); sh = sht; shv = both; sht = 0; shtv = both; }
+            else if (o == "sa") { B &alias = x; x = alias; }                       // b = b
+            else if (o == "sm") { B &alias = x; x = static_cast<B &&>(alias); }    // b = Move(b)
+            else if (o == "cc") { y.~B(); new (&y) B(x); sht = sh; shtv = both; } // copy constructor
+            else { x.~B(); new (&x) B(static_cast<B &&>(y)); sh = sht; shv = both; sht = 0; shtv = both; } // move constructor
             if (!out.empty()) out += ' ';
             std::string ys = show_state(y, "_");
             out += show_state(x, "_") + "~" + ys.substr(0, ys.size() - 2);
@@ -248,7 +350,28 @@ static std::string runSeq(const std::vector<std::string> &t) {
             }
             continue;
         } else {
-            if (o == "ib") { ret = x.IsBig() ? "T" : "F"; if (shv) { shret = ((sh >> (W - 1U)) >> 1U) != 0 ? "T" : "F"; shret_known = true; } }
+            if (o == "mi") { ret = std::to_string(B::MaxIndex()); shret = std::to_string(n - 1U); shret_known = shv; }
+            else if (o == "tw") { ret = std::to_string(B::TypeWidth()); shret = std::to_string(W); shret_known = shv; }
+            else if (o == "tb") { ret = std::to_string(B::TotalBits()); shret = std::to_string(n * W); shret_known = shv; }
+            else if (o == "so") { ret = std::to_string(B::SizeOfType()); shret = std::to_string(W / 8U); shret_known = shv; }
+            else if (o == "sad" || o == "ssb" || o == "sor" || o == "san" || o == "smu" || o == "sdv") {
+                // the operand aliases the object: b OP= b.Number()
+                const u128 w0 = u128(x.Number());
+                const u128 sw = u128(T(sh));
+                if (o == "sad") { x += x.Number(); if (shv) { u128 r; shv = !__builtin_add_overflow(sh, sw, &r) && fits(r); sh = r; } }
+                else if (o == "ssb") { x -= x.Number(); if (shv) sh -= sw; }
+                else if (o == "sor") { x |= x.Number(); if (shv) sh |= sw; }
+                else if (o == "san") { x &= x.Number(); if (shv) sh &= sw; }
+                else if (o == "smu") { x *= x.Number(); if (shv) { u128 r; shv = !__builtin_mul_overflow(sh, sw, &r) && fits(r); sh = r; } }
+                else {
+                    if (w0 == 0) pre = true;
+                    else {
+                        ret = show_u128(u128(x.Divide(x.Number())));
+                        if (shv) { shret = show_u128(sh % sw); shret_known = true; sh /= sw; }
+                    }
+                }
+            }
+            else if (o == "ib") { ret = x.IsBig() ? "T" : "F"; if (shv) { shret = ((sh >> (W - 1U)) >> 1U) != 0 ? "T" : "F"; shret_known = true; } }
             else if (o == "nz") { ret = x.NotZero() ? "T" : "F"; if (shv) { shret = (sh != 0) ? "T" : "F"; shret_known = true; } }
             else if (o == "iz") { ret = x.IsZero() ? "T" : "F"; if (shv) { shret = (sh == 0) ? "T" : "F"; shret_known = true; } }
             else if (o == "nu") { ret = show_u128(u128(x.Number())); if (shv) { shret = show_u128(u128(T(sh))); shret_known = true; } }
